@@ -5,6 +5,9 @@ against a small reference document model, with a twin document rebuilt from the
 mutating history alone at every serialisation point.  There is no I/O, clock or
 fault in this property; what applies from the technique is the history half:
 generate histories, check invariants after every step, shrink, replay.
+
+Replay spec: {"headers": [...], "title", "ops": [[op, handle index, b, c], ...]} with op in
+ text|field|bul|enum|dir|opt|section|title|clear|ser; handles are created by dir/section ops in order.
 """
 import re
 
